@@ -36,7 +36,9 @@ impl World {
             if shared && i > 0 { let first: &Pmt = pmts.values().next().unwrap(); streams.push(first.streams[0]); }
             pmts.insert(pids[i], Pmt { version: rng.below(32) as u8, pn, streams });
         }
-        if rng.chance(1, 5) { progs.push((0, pool[pool.len() - 1])); }
+        let mut pool = pool;
+        // the network PID is taken out of the pool of elementary PIDs (one PID does not carry both in a valid stream)
+        if rng.chance(1, 5) { let nit = pool.pop().unwrap(); progs.push((0, nit)); }
         World { ts_id: rng.below(0x10000) as u16, pat_version: rng.below(32) as u8, progs, pmts, pool, mux: Mux::new(), notes: vec![], last_pat: vec![], last_pmt: BTreeMap::new() }
     }
     fn pat_section(&self, rng: &mut Rng) -> Vec<u8> { section(0, self.ts_id, self.pat_version, true, &pat_body(&self.progs, rng)) }
@@ -47,6 +49,34 @@ impl World {
         let pcr = p.streams.first().map(|s| s.1).unwrap_or(0x1fff);
         section(2, p.pn, p.version, true, &pmt_body(pcr, &[], &ss, rng))
     }
+    /// the PMT of `pid` padded with private program descriptors to exactly `target` bytes (None if it cannot be done)
+    fn pmt_section_sized(&self, pid: u16, target: usize, rng: &mut Rng) -> Option<Vec<u8>> {
+        let p = &self.pmts[&pid];
+        let ss: Vec<(u8, u16, Vec<u8>)> = p.streams.iter().map(|(t, e)| (*t, *e, vec![])).collect();
+        let pcr = p.streams.first().map(|s| s.1).unwrap_or(0x1fff);
+        let base = section(2, p.pn, p.version, true, &pmt_body(pcr, &[], &ss, rng)).len();
+        if target < base + 2 || target > 1000 { return None; }
+        let mut extra = target - base; let mut pd = vec![];
+        while extra > 0 { let mut n = extra.min(257); if extra - n == 1 { n -= 1; } pd.extend(descriptor(0x81, &vec![0xAA; n - 2])); extra -= n; }
+        let s = section(2, p.pn, p.version, true, &pmt_body(pcr, &pd, &ss, rng));
+        assert_eq!(s.len(), target);
+        Some(s)
+    }
+    /// `copies` repetitions of the PMT last sent on `pid`, tightly packed; the section is first re-sized so that the second
+    /// copy starts with exactly `r` of its bytes in the packet (the new size is a new version: the first copy is "new")
+    pub fn send_pmt_packed(&mut self, pid: u16, r: usize, copies: usize, rng: &mut Rng) {
+        { let p = self.pmts.get_mut(&pid).unwrap(); p.version = (p.version + 1) & 31; }
+        // first copy: 183 bytes in its start packet, then 184 per packet; the tail must leave r bytes behind it: tail = 183 - r
+        let target = 183 + 184 * (rng.below(2) as usize) + (183 - r);
+        let s = match self.pmt_section_sized(pid, target, rng) { Some(s) => s, None => return };
+        self.last_pmt.insert(pid, s.clone());
+        let d = self.pmt_desc(pid); let v = self.pmts[&pid].version;
+        let sects: Vec<Vec<u8>> = (0..copies).map(|_| s.clone()).collect();
+        let spans = self.mux.psi_packed(pid, &sects, rng);
+        for (j, (first, last, _n)) in spans.iter().enumerate() {
+            self.notes.push(format!("T|{}|{}|{}|{}|{}|{}", pid, first, last, if j == 0 { "new" } else { "rep" }, v, d));
+        }
+    }
     fn pat_desc(&self) -> String { self.progs.iter().map(|(n, p)| format!("{}:{}", n, p)).collect::<Vec<_>>().join(",") }
     fn pmt_desc(&self, pid: u16) -> String { let p = &self.pmts[&pid]; format!("{}/{}", p.pn, p.streams.iter().map(|(t, e)| format!("{}:{}", t, e)).collect::<Vec<_>>().join(",")) }
 
@@ -55,8 +85,18 @@ impl World {
         let first = self.mux.pkts.len();
         let mut s = sect.to_vec();
         if damage == 1 { for _ in 0..rng.range(1, 3) { let b = rng.below(s.len() as u64 * 8) as usize; s[b / 8] ^= 0x80 >> (b % 8); } }
+        // 4: the section header itself is hit: section_syntax_indicator cleared, or a length above the limit
+        if damage == 4 { if rng.chance(1, 2) { s[1] &= 0x7f; } else { s[1] |= 0x0f; } }
         let style = if s.len() > 150 { rng.below(3) } else { 0 };
         self.mux.psi(pid, &s, 0, style, rng);
+        // payload-less packets (adaptation field only, e.g. carrying the PCR) on the table PID, inside and behind the transmission
+        if damage == 0 && rng.chance(1, 4) {
+            for _ in 0..rng.range(1, 2) {
+                let at = first + 1 + rng.below((self.mux.pkts.len() - first) as u64) as usize;
+                let mut q = Mux::new(); q.set_cc(pid, self.mux.pkts[at - 1][3] & 15); q.af_only(pid, if rng.chance(1, 2) { Some(rng.next()) } else { None }, rng);
+                self.mux.pkts.insert(at, q.pkts.pop().unwrap());
+            }
+        }
         let n = self.mux.pkts.len() - first;
         if damage == 2 && n >= 2 { let k = first + 1 + rng.below(n as u64 - 1) as usize; self.mux.pkts.remove(k); }
         if damage == 3 && n >= 2 { let keep = first + rng.range(1, n as u64 - 1) as usize; self.mux.pkts.truncate(keep); }
@@ -107,7 +147,10 @@ impl World {
         match rng.below(4) {
             0 if self.progs.iter().filter(|p| p.0 != 0).count() > 1 => { let k = rng.below(self.progs.len() as u64) as usize; if self.progs[k].0 != 0 { self.progs.remove(k); } }
             1 => { let pid = self.pool[rng.below(self.pool.len() as u64) as usize] ^ 0x1000; let pn = 50 + rng.below(50) as u16;
-                   if !self.pmts.contains_key(&pid) && !self.progs.iter().any(|p| p.1 == pid) {
+                   let es = pid ^ 0x0800;
+                   let used = |x: u16| x < 0x10 || x == 0x1fff || self.pool.contains(&x) || self.pmts.contains_key(&x) || self.progs.iter().any(|p| p.1 == x)
+                                       || self.pmts.values().any(|m| m.streams.iter().any(|s| s.1 == x));
+                   if !used(pid) && !used(es) {
                        self.progs.push((pn, pid)); self.pmts.insert(pid, Pmt { version: rng.below(32) as u8, pn, streams: vec![(0x1b, pid ^ 0x0800)] }); } }
             2 => { let n = self.progs.len(); if n > 1 { self.progs.swap(0, n - 1); } }
             _ => {}
@@ -141,11 +184,26 @@ pub fn gen_c05(tier: &str, seed: u64, emit: &mut dyn FnMut(String)) {
     let mut rng = Rng::new(seed ^ 0xC05);
     for i in 0..(if tier == "thorough" { 40000 } else { 2500 }) {
         let shared = i % 23 == 7;                       // finding F7: an elementary PID shared by two programs
-        let np = rng.range(1, 3) as usize;
+        let np = if i % 23 == 11 { 2 } else { rng.range(1, 3) as usize };
         let mut w = World::new(&mut rng, if shared { 2 } else { np }, shared);
         w.send_pat("new", 0, &mut rng);
         for pid in w.live_pmt_pids() { let big = rng.chance(1, 6); w.send_pmt(pid, "new", 0, big, &mut rng); }
         w.probes(&mut rng);
+        if i % 23 == 11 && w.live_pmt_pids().len() >= 2 {
+            // an elementary PID migrates: program 1 drops it, program 2 announces it later (never listed by both at once),
+            // then program 1 changes again; it must stay with the handler program 2's map installed
+            let l = w.live_pmt_pids(); let (p1, p2) = (l[0], l[1]);
+            let a = w.pmts[&p1].streams[0];
+            let spare = w.pool[w.pool.len() - 1];
+            if !w.pmts[&p2].streams.iter().any(|s| s.1 == a.1) && a.1 != spare {
+                { let m = w.pmts.get_mut(&p1).unwrap(); m.version = (m.version + 1) & 31; m.streams.remove(0); if m.streams.is_empty() { m.streams.push((0x1b, spare)); } }
+                w.send_pmt(p1, "new", 0, false, &mut rng); w.probes(&mut rng);
+                { let m = w.pmts.get_mut(&p2).unwrap(); m.version = (m.version + 1) & 31; m.streams.push((0x0f, a.1)); }
+                w.send_pmt(p2, "new", 0, false, &mut rng); w.probes(&mut rng);
+                for _ in 0..rng.range(1, 2) { let m = w.pmts.get_mut(&p1).unwrap(); m.version = (m.version + 1) & 31; if rng.chance(1, 2) { m.streams.reverse(); }
+                    w.send_pmt(p1, "new", 0, false, &mut rng); w.probes(&mut rng); }
+            }
+        }
         for _ in 0..rng.range(1, 6) {
             if rng.chance(1, 3) { w.bump_pat(&mut rng); w.send_pat("new", 0, &mut rng);
                 // a re-listed program keeps transmitting its PMT (same version: a repetition)
@@ -178,6 +236,12 @@ pub fn gen_c10(tier: &str, seed: u64, emit: &mut dyn FnMut(String)) {
                 if rng.chance(1, 2) { w.send_pat("rep", 0, &mut rng); } else { let l = w.live_pmt_pids(); let q = *rng.pick(&l); w.send_pmt(q, "rep", 0, false, &mut rng); }
             }
             for p in pk[cut..].iter() { w.mux.pkts.push(p.clone()); }
+            // a burst of tightly packed copies of a PMT: each copy starts right behind the previous one, the second one with
+            // r of its bytes left in the packet (r < 3: finding F9; r < 8: that copy is not parsed; otherwise an ordinary start)
+            if i % 4 == 1 { let l = w.live_pmt_pids(); let q = *rng.pick(&l);
+                let r = *rng.pick(&[1usize, 2, 3, 4, 5, 6, 7, 8, 9, 12, 40, 100]);
+                let copies = rng.range(2, 5) as usize; w.send_pmt_packed(q, r, copies, &mut rng);
+                for _ in 0..rng.below(3) { w.send_pmt(q, "rep", 0, false, &mut rng); } }
             // a genuine version change now and then (of a PMT only: see finding F8 for PAT changes), back and forth
             if rng.chance(1, 3) { let l = w.live_pmt_pids(); let q = *rng.pick(&l); let keep = w.pmts[&q].clone();
                 w.bump_pmt(q, &mut rng); w.pmts.get_mut(&q).unwrap().streams = keep.streams.clone(); w.send_pmt(q, "new", 0, false, &mut rng);
@@ -201,7 +265,7 @@ pub fn gen_c11(tier: &str, seed: u64, emit: &mut dyn FnMut(String)) {
         if !(first_is_damaged && target_pat) { w.send_pat("new", 0, &mut rng); }
         if !first_is_damaged { w.send_pmt(pmt_pid, "new", 0, big, &mut rng); w.probes(&mut rng);
             if target_pat { w.bump_pat(&mut rng); } else { w.bump_pmt(pmt_pid, &mut rng); } }
-        let dmg = 1 + (i / 4) as u64 % 3;
+        let dmg = 1 + (i / 4) as u64 % 4;
         if target_pat { w.send_pat("dmg", dmg, &mut rng); } else { w.send_pmt(pmt_pid, "dmg", dmg, big, &mut rng); }
         // intact copies: the same version first (finding F2 when the damaged start was recorded) ...
         for _ in 0..rng.range(1, 3) { if target_pat { w.send_pat("intact", 0, &mut rng); } else { w.send_pmt(pmt_pid, "intact", 0, big, &mut rng); } }
@@ -250,4 +314,13 @@ pub fn gen_witnesses(_tier: &str, _seed: u64, emit: &mut dyn FnMut(String)) {
       m.psi(0, &pat0, 0, 0, &mut rng); m.psi(0x100, &pmt0, 0, 0, &mut rng);
       m.psi(0, &pat1, 0, 0, &mut rng); m.psi(0x100, &pmt0, 0, 0, &mut rng);
       emit(format!("{} #W=F8b", dmx_case(0, "", &[m.bytes()]))); }
+    // F9: three copies of a 365-byte PMT; the second is packed right behind the first and starts with ONE byte left in its
+    // packet (header straddles the packet boundary): the chain is reset and forgets the version, the third copy is applied again
+    { let mut m = Mux::new();
+      let pat = section(0, 1, 0, true, &[0, 1, 0xE1, 0x00]);
+      let mut body = vec![0xE1, 0x01, 0xF1, 0x58]; body.extend(descriptor(0x81, &vec![0xAA; 255])); body.extend(descriptor(0x81, &vec![0xAA; 85]));
+      body.extend_from_slice(&[0x1b, 0xE1, 0x01, 0xF0, 0]);
+      let pmt = section(2, 1, 0, true, &body); assert_eq!(pmt.len(), 365);
+      m.psi(0, &pat, 0, 0, &mut rng); m.psi_packed(0x100, &[pmt.clone(), pmt.clone()], &mut rng); m.psi(0x100, &pmt, 0, 0, &mut rng);
+      emit(format!("{} #W=F9", dmx_case(0, "", &[m.bytes()]))); }
 }
